@@ -85,8 +85,12 @@ type exec struct {
 	serverSides map[*value]*value
 	ticks       int
 	retries     int
+	unknowns    int
 	blobStrs    []blobStr
 	structPtrs  []structPtr
+	pkgInited   map[*ssa.Package]bool
+	pkgInitRan  map[*ssa.Function]bool
+	forceInit   bool
 	notes     []string
 	assumes   int
 	coros       []*coro
@@ -209,6 +213,9 @@ func (ex *exec) resetPath(prefix []int) {
 	ex.schedNondet = false
 	ex.ptrIDs = nil
 	ex.structPtrs = nil
+	ex.pkgInited = nil
+	ex.pkgInitRan = nil
+	ex.forceInit = false
 	ex.lazyLog = nil
 	ex.lazyRoots = nil
 	ex.genUUIDs = nil
@@ -228,6 +235,7 @@ func (ex *exec) resetPath(prefix []int) {
 	ex.lastNow = nil
 	ex.rpcPeers = nil
 	ex.rpcCalls = 0
+	ex.unknowns = 0
 	ex.resetNet()
 	ex.sleeps = 0
 	ex.solver.Reset()
@@ -343,7 +351,20 @@ func (ex *exec) check(extra *Term, wantModel bool) (Result, map[string]interface
 		}
 		return ex.fp.Check(asserts, ex.modelTerms(wantModel), wantModel)
 	}
-	return ex.solver.Check(asserts, ex.modelTerms(wantModel), wantModel)
+	r, m := ex.solver.Check(asserts, ex.modelTerms(wantModel), wantModel)
+	if r == Unknown {
+		ex.unknowns++
+		if ex.unknowns > 3 {
+			// every further query on this path is likely to time out as well (typically: byte-level reasoning
+			// about symbolic strings); give the path up rather than spend the budget on it
+			panic(engineAbort{"incomplete", "solver answered unknown more than 3 times on one path"})
+		}
+	}
+	if ex.solver.LastKilled {
+		// the solver ignored its own time limit and was killed: queries on this path are hopeless, give the path up
+		panic(engineAbort{"incomplete", "solver did not answer within the time limit (killed)"})
+	}
+	return r, m
 }
 
 // decide makes an n-way decision; opts[i] is the condition under which option i applies (exhaustive).
